@@ -2,7 +2,7 @@
 from registry_api import T
 
 FAMILIES = {
-    "stream": dict(src="stream.cpp"),
+    "stream": dict(src="stream.cpp", ops=["sshist", "ssfault"]),
 }
 
 PROPS = {
